@@ -14,7 +14,9 @@
 //!     per-thread order, possibly with unacknowledged batches in between, never a partial, changed or
 //!     foreign batch; the reader may stop with an error (a torn tail) only after every acknowledged
 //!     batch has been read.
-//! Which error is returned, and whether the builder refuses work after a failure, is not prescribed.
+//! Which error is returned, and whether the builder refuses work after a failure, is not prescribed
+//! (since /repo 74f18ab a `LogBuilder` refuses everything after a failed write or flush; finding
+//! C12-B, regressions/C12/C12-B-*.json).
 
 use std::collections::BTreeMap;
 use std::os::fd::AsRawFd;
@@ -175,20 +177,9 @@ pub struct FaultRun<'a> {
     /// other calls that failed: (what, response stamp, error)
     pub other_errors: Vec<(String, u64, String)>,
     /// write calls that succeeded after a write call had failed or been cut short, counted before
-    /// the final `seal()`
+    /// the final `seal()` (evidence only)
     pub writes_after_failure: u64,
-    /// no exclusion of known findings
-    pub strict: bool,
 }
-
-/// Suspected finding C12-B: neither builder stops writing after a write failed.  `LogBuilder` keeps
-/// its offset and its buffer as they were when the error struck (a frame header without its payload,
-/// or a prefix of a frame, stays in the stream), `ConcurrentLogBuilder` sets its `poison` flag but
-/// never reads it; the next append is framed behind the torn bytes and acknowledged, and no reader
-/// gets past the torn bytes.  Trigger, taken from the intercepted calls only: a write call on the
-/// log succeeded after an earlier write call had failed (before the final seal).  What is
-/// acknowledged after the first failed write is then not judged.
-pub const C12_B: &str = "C12-B";
 
 fn group_frames_lenient(frames: &[Frame]) -> (Vec<Group>, Option<String>) {
     // the longest prefix of the frames that groups (a FIRST frame at the very end is a torn tail)
@@ -316,8 +307,6 @@ pub fn judge(run: &FaultRun, o: &mut Outcome) {
             faults.iter().map(|f| format!("{:?}#{}@len{}", f.kind, f.idx, f.len_at)).collect::<Vec<_>>().join(" ")
         )
     };
-    let excluding = !run.strict && run.writes_after_failure > 0;
-    let mut excluded = 0u64;
     let (mut acked, mut acked_after_fault, mut failed, mut failed_present, mut unacked_ok) = (0u64, 0u64, 0u64, 0u64, 0u64);
     for (t, rs) in recs.iter().enumerate() {
         for (s, r) in rs.iter().enumerate() {
@@ -335,10 +324,6 @@ pub fn judge(run: &FaultRun, o: &mut Outcome) {
             acked += 1;
             if first_fault.map(|f| f < r.end).unwrap_or(false) {
                 acked_after_fault += 1;
-            }
-            if excluding && first_write_fault.map(|f| f < r.end).unwrap_or(false) {
-                excluded += 1;
-                continue;
             }
             if !pos.contains_key(&(t, s)) {
                 o.fail("acknowledged-batch-unreadable", format!("{what}: batch {s} of thread {t} ({} payload bytes) was acknowledged as durable, but reading the file does not yield it: {}", payload[t][s], describe_file()));
@@ -397,9 +382,8 @@ pub fn judge(run: &FaultRun, o: &mut Outcome) {
     for k in kinds {
         o.label(k);
     }
-    if excluded > 0 {
-        o.excluded.push(C12_B.to_string());
-        o.label(format!("acknowledged-after-a-failed-write-then-more-writes(not-judged,C12-B):{}", bucket(excluded)));
+    if run.writes_after_failure > 0 {
+        o.label("a-write-succeeded-after-a-failed-write(before-seal)");
     }
     o.label(format!("acknowledged:{}", bucket(acked)));
     o.label(format!("acknowledged-after-the-first-fault:{}", bucket(acked_after_fault)));
@@ -460,7 +444,7 @@ fn run_conc(ctx: &Ctx, c: &ConcCase, f: &Faults) -> Outcome {
         return o;
     }
     let other_errors = d.fsyncs.iter().filter_map(|f| f.err.as_ref().map(|e| ("ConcurrentLogBuilder::fsync".to_string(), f.end, e.clone()))).collect();
-    let run = FaultRun { what: "ConcurrentLogBuilder", plan: &d.plan, payload: &d.payload, recs, opts: &d.opts, path: &d.path, faults: &d.faults, shim_len: d.shim_len, odd: d.odd, other_errors, writes_after_failure: d.writes_after_failure, strict: ctx.strict };
+    let run = FaultRun { what: "ConcurrentLogBuilder", plan: &d.plan, payload: &d.payload, recs, opts: &d.opts, path: &d.path, faults: &d.faults, shim_len: d.shim_len, odd: d.odd, other_errors, writes_after_failure: d.writes_after_failure };
     judge(&run, &mut o);
     if !o.failed() {
         o.label("builder:concurrent");
@@ -609,7 +593,7 @@ fn run_seq(ctx: &Ctx, p: &SeqProg, f: &Faults) -> Outcome {
             return o;
         }
     };
-    let run = FaultRun { what: "LogBuilder<File>", plan: &plan, payload: &payload, recs: vec![recs], opts: &opts, path: &path, faults: &faults, shim_len, odd, other_errors, writes_after_failure, strict: ctx.strict };
+    let run = FaultRun { what: "LogBuilder<File>", plan: &plan, payload: &payload, recs: vec![recs], opts: &opts, path: &path, faults: &faults, shim_len, odd, other_errors, writes_after_failure };
     judge(&run, &mut o);
     if !o.failed() {
         o.label("builder:sequential");
